@@ -292,10 +292,10 @@ PLANS = {
     "C09": dict(level="model_checking", assumptions=TRUST + ["independent decoder: sequential walk, codec crates, LEB128 framing parser"],
                 mc=[MC("MCWriter", "MCWriter_sorted_a.cfg", workers=8), MC("MCWriter", "MCWriter_sorted_c.cfg", workers=8)],
                 extra=[writer_model(["L2K8", "L3K1"], 40, 400)],
-                gen=[G("format", 400, 12000, "TraceLayout", "TraceLayout_C09.cfg"),
+                gen=[G("format", 400, 12000, "TraceLayout", "TraceLayout_C09.cfg", extra=["--raw"]),
                      # the same through a sink that accepts partial writes: recorded offsets must still be right
                      G("format", 120, 3000, "TraceLayout", "TraceLayout_C09.cfg", extra=["--wsched", "rand7"]),
-                     G("chunks", 32, 800, "TraceLayout", "TraceLayout_C09.cfg"),
+                     G("chunks", 32, 800, "TraceLayout", "TraceLayout_C09.cfg", extra=["--raw"]),
                      G("varint_windows", 2, 8, "TraceVarint", "TraceVarint_C09.cfg")]),
     "C11": dict(level="model_checking", assumptions=TRUST + ["stream equality is judged on (length, two independent 31-bit digests)", "read-side: results under a schedule are validated against the same contract specifications as the whole-buffer runs"],
                 mc=[MC("MCIO", "MCIO_W.cfg", workers=2), MC("MCIO", "MCIO_R.cfg", workers=2),
